@@ -972,6 +972,24 @@ pub struct IntruderPlan {
     pub at: u64,
 }
 
+/// File identity on the simulated disk: a handle opened for writing refers to an *inode*, which
+/// keeps its identity when the file is renamed and lives on, nameless, when the name is removed
+/// or taken over by another file while the handle is open (its content is then private to the
+/// process under an orphan key and vanishes with it).
+#[derive(Clone, Default, Debug)]
+pub struct Inodes {
+    pub by_name: BTreeMap<String, u64>,
+    /// inode -> current name (`None`: unlinked, still open)
+    pub names: BTreeMap<u64, Option<String>>,
+    pub next: u64,
+    /// open handles per inode
+    pub open: BTreeMap<u64, u32>,
+}
+
+pub fn orphan_key(ino: u64) -> String {
+    format!("<orphan:{}>", ino)
+}
+
 /// what the seam does at a crash point
 #[derive(Clone, Copy, Debug, PartialEq, Eq)]
 pub enum Gate {
@@ -1067,11 +1085,8 @@ pub struct World {
     pub intruder: Option<IntruderPlan>,
     pub intruded: bool,
     pub intruder_result: Option<Box<crate::sim::RunResult>>,
-    /// files this process holds open for writing right now (by name)
-    pub open_writers: BTreeMap<String, u32>,
-    /// the second instance touched a file this process held open for writing: what happens then
-    /// depends on inode identity, which the simulated disk (files by name) does not model — the
-    /// session is not judged
+    pub inodes: Inodes,
+    /// (kept for the result record; no longer set: file identity is modelled)
     pub company_ambiguous: bool,
 }
 
@@ -1171,7 +1186,7 @@ impl World {
             intruder: None,
             intruded: false,
             intruder_result: None,
-            open_writers: BTreeMap::new(),
+            inodes: Inodes::default(),
             company_ambiguous: false,
         }
     }
@@ -1219,6 +1234,72 @@ impl World {
         Ok(())
     }
 
+    /// a handle is opened for writing on `name`: the inode behind that name (a new one if the name
+    /// is new)
+    pub fn ino_open(&mut self, name: &str) -> u64 {
+        let ino = match self.inodes.by_name.get(name) {
+            Some(i) => *i,
+            None => {
+                self.inodes.next += 1;
+                let i = self.inodes.next;
+                self.inodes.by_name.insert(name.to_string(), i);
+                i
+            }
+        };
+        self.inodes.names.insert(ino, Some(name.to_string()));
+        *self.inodes.open.entry(ino).or_default() += 1;
+        ino
+    }
+    pub fn ino_dup(&mut self, ino: u64) {
+        *self.inodes.open.entry(ino).or_default() += 1;
+    }
+    pub fn ino_close(&mut self, ino: u64) {
+        let gone = match self.inodes.open.get_mut(&ino) {
+            Some(n) => {
+                *n = n.saturating_sub(1);
+                *n == 0
+            }
+            None => false,
+        };
+        if gone {
+            self.inodes.open.remove(&ino);
+            if let Some(None) = self.inodes.names.get(&ino) {
+                // last handle of an unlinked file: its content goes away
+                self.inodes.names.remove(&ino);
+                self.written.remove(&orphan_key(ino));
+            }
+        }
+    }
+    /// where the content of an open inode lives right now
+    pub fn ino_key(&self, ino: u64, fallback: &str) -> String {
+        match self.inodes.names.get(&ino) {
+            Some(Some(n)) => n.clone(),
+            Some(None) => orphan_key(ino),
+            None => fallback.to_string(),
+        }
+    }
+    /// `name` stops naming its inode (removed, or about to be taken over by a rename): if a handle
+    /// is still open on it, the content lives on under the orphan key
+    pub fn ino_unlink(&mut self, name: &str) {
+        if let Some(i) = self.inodes.by_name.remove(name) {
+            if self.inodes.open.get(&i).copied().unwrap_or(0) > 0 {
+                if let Some(c) = self.written.get(name).cloned() {
+                    self.written.insert(orphan_key(i), c);
+                }
+                self.inodes.names.insert(i, None);
+            } else {
+                self.inodes.names.remove(&i);
+            }
+        }
+    }
+    /// the inode named `from` is now named `to`
+    pub fn ino_rename(&mut self, from: &str, to: &str) {
+        if let Some(i) = self.inodes.by_name.remove(from) {
+            self.inodes.by_name.insert(to.to_string(), i);
+            self.inodes.names.insert(i, Some(to.to_string()));
+        }
+    }
+
     /// a path as the simulated process spells it, made absolute against its working directory
     pub fn absolute(&self, p: &Path) -> PathBuf {
         if p.is_absolute() {
@@ -1245,6 +1326,8 @@ impl World {
     /// content was never synced — a prefix of it (possibly empty).
     pub fn disk_after(&self) -> Disk {
         let mut files = self.written.clone();
+        // unlinked-but-open files die with the process
+        files.retain(|k, _| !k.starts_with("<orphan:"));
         let mut mtimes = self.mtimes.clone();
         let mut removed = self.removed.clone();
         if let (Some(CrashKind::PowerLoss), Some(plan)) = (self.crashed, self.crash) {
